@@ -338,3 +338,50 @@ def gen_arrays(rng, fn, nan_p=None, weights=None, angles=False, same_dims=False)
             wd = wd + ["wx"]
         w = gens.rand_da(rng, wsizes, dims=wd, lo=0, hi=3, nan_p=0.1 if rng.random() < 0.3 else 0.0)
     return arrs, w, sizes
+
+
+# ------------------------------------------------------------------------------------------
+# comparing two implementation results with each other (by label, with tolerance)
+# ------------------------------------------------------------------------------------------
+def same_result(a, b, tol=1e-9):
+    """a, b: results of core.call_impl -> (equal?, description)"""
+    if a[0] != b[0]:
+        return False, f"{a[0]}:{str(a[1])[:60]} vs {b[0]}:{str(b[1])[:60]}"
+    if a[0] == "err":
+        return (a[1] == b[1]), f"{a[1]} vs {b[1]}"
+    return same_value(a[1], b[1], tol)
+
+
+def same_value(x, y, tol=1e-9):
+    if isinstance(x, xr.Dataset) or isinstance(y, xr.Dataset):
+        if not (isinstance(x, xr.Dataset) and isinstance(y, xr.Dataset)) or set(x.data_vars) != set(y.data_vars):
+            return False, "dataset variables differ"
+        for v in x.data_vars:
+            ok, why = same_value(x[v], y[v], tol)
+            if not ok:
+                return False, f"{v}: {why}"
+        return True, ""
+    x = x if isinstance(x, xr.DataArray) else xr.DataArray(x)
+    y = y if isinstance(y, xr.DataArray) else xr.DataArray(y)
+    if set(x.dims) != set(y.dims):
+        return False, f"dims {x.dims} vs {y.dims}"
+    for d in x.dims:
+        if d in x.coords and d in y.coords:
+            x = x.sortby(d)
+            y = y.sortby(d)
+    y = y.transpose(*x.dims)
+    if x.shape != y.shape:
+        return False, f"shape {x.shape} vs {y.shape}"
+    xv, yv = np.asarray(x.values, dtype=float), np.asarray(y.values, dtype=float)
+    ok = np.allclose(xv, yv, rtol=tol, atol=tol, equal_nan=True)
+    return bool(ok), "" if ok else f"values {xv.ravel()[:6]} vs {yv.ravel()[:6]}"
+
+
+def data_dims(fn, arrs):
+    """the dims the function forwards to the dimension rule (fcst u obs)"""
+    out = []
+    for a in arrs:
+        for d in a.dims:
+            if d not in out:
+                out.append(d)
+    return out
